@@ -118,7 +118,7 @@ public:
       class species* sp = e->spec[e->s_list[j]];
       sp->lm = next();
       zsave.push_back(sp->z);
-      if (sit) { double t = next(); if (t > -0.5 && t < -0.3) sp->z = 0.0; }   // SIT: some species made neutral (neutral-neutral epsilon)
+      if (sit) { double t = next(); if (t > -1.4 && t < -0.3) sp->z = 0.0; }   // SIT: some species made neutral (neutral-neutral epsilon)
     }
     for (size_t j = 0; j < e->param_list.size(); j++) {
       class pitz_param* p = pp[e->param_list[j]];
